@@ -409,4 +409,78 @@ def defaultR : Kind → Endian
   | .file => fileDefault
   | .sock => sockDefault
 
+/-! ## a Socket whose bytes arrive in pieces
+
+`Socket_::read(void* data, int size)` (src/Socket.cpp): `if (size <= 0) return 0; do { n = recv(h, data, size); if (n <= 0)
+{ error; break; } data += n; s += n; size -= n; } while (s < size0); return s;` — a blocking stream socket hands out, per
+`recv`, at most `size` bytes of what has arrived so far. The pending data is a list of pieces (each piece = what one
+`recv` can see at most); `Socket::get_` is `read(&x, sizeof(x)); if (endian() == OTHER) swapBytes(x);` (the whole object is
+swapped whatever the number of `recv` calls it took). -/
+
+/-- the `do … while (s < size0)` loop, `size > 0`: the bytes stored at `data` and the pieces still pending
+    (an empty piece stands for `recv` returning 0: peer closed, the loop breaks) -/
+def sockRecvLoop : Nat → List (List UInt8) → List UInt8 × List (List UInt8)
+  | _, [] => ([], [])
+  | size, p :: ps =>
+    if p.length = 0 then ([], ps)
+    else if size < p.length then (p.take size, p.drop size :: ps)
+    else if size = p.length then (p, ps)
+    else let r := sockRecvLoop (size - p.length) ps; (p ++ r.1, r.2)
+
+/-- `Socket_::read(void*, int)` -/
+def sockRead (n : Nat) (ps : List (List UInt8)) : List UInt8 × List (List UInt8) :=
+  if n = 0 then ([], ps) else sockRecvLoop n ps
+
+def getGenericFrag (swap : Bool) (w : Nat) (ps : List (List UInt8)) : Nat × List (List UInt8) :=
+  let r := sockRead w ps
+  let x := if swap then swapBytes r.1 else r.1
+  (objVal x, r.2)
+
+def getScalarFrag (e : Endian) (t : Ty) (ps : List (List UInt8)) : Nat × List (List UInt8) :=
+  match t with
+  | .ch => getGenericFrag false 1 ps
+  | .u8 => getGenericFrag false 1 ps
+  | _ => getGenericFrag (readSwap .sock e) (sizeofT t) ps
+
+def getManyFrag (e : Endian) (t : Ty) : Nat → List (List UInt8) → List Nat × List (List UInt8)
+  | 0, ps => ([], ps)
+  | n + 1, ps =>
+    let r := getScalarFrag e t ps
+    let r' := getManyFrag e t n r.2
+    (r.1 :: r'.1, r'.2)
+
+def getArrayFrag (e : Endian) (t : Ty) (n : Nat) (ps : List (List UInt8)) : List Nat × List (List UInt8) :=
+  if rArraySwap .sock e (arithT t) then getManyFrag e t n ps
+  else
+    let r := sockRead (rArrayCount .sock n (sizeofT t)) ps
+    (memVals (sizeofT t) n r.1, r.2)
+
+/-- `readOp .sock` with every `Socket_::read(p, n)` going through the receive loop -/
+def readOpFrag (e : Endian) (ps : List (List UInt8)) : ROp → Endian × List (List UInt8) × RVal
+  | .setEndian e' => (e', ps, .none)
+  | .scalar t => let r := getScalarFrag e t ps; (e, r.2, .val t r.1)
+  | .bytes n => let r := sockRead (rawReadCount .sock n) ps; (e, r.2, .bytes r.1)
+  | .skip n => let r := sockRead (skipAdv .sock n) ps; (e, r.2, .none)
+  | .array t n => let r := getArrayFrag e t n ps; (e, r.2, .vals t r.1)
+
+def readAllFrag : Endian → List (List UInt8) → List ROp → Endian × List RVal × List (List UInt8)
+  | e, ps, [] => (e, [], ps)
+  | e, ps, op :: ops =>
+    let r := readOpFrag e ps op
+    let r' := readAllFrag r.1 r.2.1 ops
+    (r'.1, r.2.2 :: r'.2.1, r'.2.2)
+
+/-- the bytes `bs` (first byte at offset `i`) cut before every offset listed in `offs` -/
+def cutGo (offs : List Nat) : Nat → List UInt8 → List (List UInt8)
+  | _, [] => []
+  | i, b :: bs =>
+    match cutGo offs (i + 1) bs with
+    | [] => [[b]]
+    | p :: ps => if offs.contains (i + 1) then [b] :: p :: ps else (b :: p) :: ps
+
+/-- op `readerf`: the stream cut at the offsets `c mod (length + 1)` -/
+def cutPieces (cuts : List Nat) (bs : List UInt8) : List (List UInt8) :=
+  cutGo (cuts.map (· % (bs.length + 1))) 0 bs
+
+
 end AslModel.Stream
